@@ -115,6 +115,7 @@ func main() {
 	firstPublishers(o, r, *burstK)
 	generateFromStates(o, r, 20)
 	publishPaths(o, r)
+	idsAcrossEmpty(o, r, 300)
 }
 
 // two FIRST publishers of a brand-new topic: the first is parked in GetTopic after its
